@@ -187,3 +187,7 @@ def proofs(tier, workroot):
     c04 = importlib.util.module_from_spec(sp)
     sp.loader.exec_module(c04)
     return list(PROOFS) + c04.proofs(tier, workroot)
+
+sys.path.insert(0, os.path.join(os.path.dirname(os.path.abspath(__file__)), '..', '..', 'tools'))
+import replay_lib  # noqa: E402
+REPLAY = replay_lib.make_replay(replay_lib.scenario_encoding)
